@@ -28,3 +28,8 @@ Print Assumptions C14_signatures_match.
 Theorem C14_anchor_order : zlist_eqb anchor_order [0; 1; 2]%Z = true.
 Proof. vm_compute. reflexivity. Qed.
 Print Assumptions C14_anchor_order.
+
+(* PDF: the DCT codec is labelled image/jpeg (FILTER_TO_CONTENT_TYPE of the live module) *)
+Theorem C14_pdf_dct_is_jpeg : pdf_content_type pdf_ctmap [s "/DCTDecode"] = s "image/jpeg".
+Proof. vm_compute. reflexivity. Qed.
+Print Assumptions C14_pdf_dct_is_jpeg.
